@@ -1,0 +1,16 @@
+// SPDX-License-Identifier: Apache-2.0
+//! Verification-only seams, compiled only with the cargo feature `echo_verif`.
+//!
+//! Everything here is add-only: thin public wrappers around crate-private
+//! functions so that an external harness can drive the real code on inputs the
+//! public API cannot produce. With the feature off this module does not exist.
+#![allow(
+    missing_docs,
+    clippy::all,
+    clippy::pedantic,
+    clippy::nursery,
+    clippy::unwrap_used,
+    clippy::expect_used,
+    clippy::panic,
+    dead_code
+)]
